@@ -227,7 +227,7 @@ pub fn random_req(wd: &mut World) -> Req {
         _ => Kind::Shielding,
     };
     let account = rng.gen_range(0..2);
-    let pol = random_policy(rng);
+    let mut pol = random_policy(rng);
     let (lp_variant, lp_owners) = if kind == Kind::Standard || rng.gen_bool(0.45) {
         (0u8, BTreeSet::new())
     } else {
@@ -254,6 +254,10 @@ pub fn random_req(wd: &mut World) -> Req {
         p
     };
     let transparent = if kind == Kind::Transfer { *[0u8, 0, 1, 1, 2].choose(rng).unwrap() } else { 0 };
+    if (kind == Kind::Shielding || transparent != 0) && rng.gen_bool(0.4) {
+        // coins are judged by depth only without zero-conf shielding
+        pol.zero_conf_shielding = false;
+    }
     let n_pay = if kind == Kind::Transfer { *[1usize, 1, 1, 2, 3].choose(rng).unwrap() } else { 1 };
     let mut rcpts = vec![];
     for _ in 0..n_pay {
